@@ -61,6 +61,11 @@ impl ToTokens for FromMetaImpl<'_> {
                             .map(#ty_ident)
                     }
 
+                    // `#[darling(flatten)]` hands over a bare list; forward it like the item above.
+                    fn from_list(__items: &[::darling::export::NestedMeta]) -> ::darling::Result<Self> {
+                        ::darling::FromMeta::from_list(__items).map(#ty_ident)
+                    }
+
                     #from_none
                 )
             }
